@@ -1,4 +1,5 @@
 import MjProof.Props.C49
+import MjProof.Lemmas.Introspect
 import MjProof.Gen.IntrospectHeaders
 import MjProof.Gen.IntrospectPython
 /-
@@ -8,7 +9,8 @@ include/mujoco (`Gen/IntrospectHeaders.lean`, from `clang -ast-dump=json` plus t
 Both files are regenerated from the working tree on every run by translate/c49_tables.py; a
 disagreement makes the corresponding `decide +kernel` fail, i.e. this module stops compiling.
 
-All statements are about the generated finite tables (closed terms), decided by kernel evaluation.
+The statements about the generated tables are closed terms decided by kernel evaluation; texts are
+numerals (see Model/Introspect.lean), decoded by `dS` where the parser or printer is involved.
 -/
 namespace MjProof.C49
 open MjProof.CType MjProof.Introspect
@@ -34,23 +36,28 @@ theorem function_tables_equal :
     mapMOpt (resolveFunc IntrospectHeaders.typeTable) IntrospectHeaders.functions = some IntrospectPython.functions := by
   decide +kernel
 
+/-- The kernel-evaluated check behind `python_types_wf`: shapes of all shipped type ASTs, names of
+    their distinct value types. -/
+theorem python_types_ok :
+    typesOk (structTypes IntrospectPython.structs ++ funcTypes IntrospectPython.functions) = true := by
+  decide +kernel
+
 /-- Every type AST in the shipped struct and function tables is well formed … -/
 theorem python_types_wf :
-    (structTypes IntrospectPython.structs ++ funcTypes IntrospectPython.functions).all WF = true := by
-  decide +kernel
+    ∀ t ∈ structTypes IntrospectPython.structs ++ funcTypes IntrospectPython.functions, WF t.decode = true :=
+  typesOk_wf python_types_ok
 
 /-- … hence printing it (`str(t)`) and parsing the text gives the same AST back. -/
 theorem python_types_roundtrip :
     ∀ t ∈ structTypes IntrospectPython.structs ++ funcTypes IntrospectPython.functions,
-      parseType (decl t) = some t := by
-  intro t ht
-  exact parse_decl_roundtrip t (List.all_eq_true.mp python_types_wf t ht)
+      parseType (decl t.decode) = some t.decode :=
+  fun t ht => parse_decl_roundtrip t.decode (python_types_wf t ht)
 
 /-- The AST of every header-side member / parameter / return type is the parse of its spelling:
     whatever index a header-side table entry carries, the looked-up AST is what the model parser
-    returns on the string stored next to it. -/
-theorem header_lookup_is_parse (i : Nat) (t : CType) (h : lookup IntrospectHeaders.typeTable i = some t) :
-    ∃ s : Str, IntrospectHeaders.typeTable[i]? = some (s, t) ∧ parseType s = some t := by
+    returns on the spelling stored next to it. -/
+theorem header_lookup_is_parse (i : Nat) (t : CTypeN) (h : lookup IntrospectHeaders.typeTable i = some t) :
+    ∃ s : Nat, IntrospectHeaders.typeTable[i]? = some (s, t) ∧ parseType (dS s) = some t.decode := by
   unfold lookup at h
   cases hi : IntrospectHeaders.typeTable[i]? with
   | none => simp [hi] at h
